@@ -67,6 +67,7 @@ Section LiteDriver.
   Definition l_close_rx_pipe (p : Z) : M unit :=
     if (p <? 0) || (5 <? p) then raise ValueError
     else
+      (if p =? 0 then set_p0 None else ret tt) ;;;      (* a closed pipe 0 is forgotten (fix C20) *)
       op <- l_reg_read 2 ;;
       if Z.testbit op p then l_reg_write 2 (Z.land op (Z.lnot (Z.shiftl 1 p))) else ret tt.
 
